@@ -50,10 +50,11 @@ def prelude(res, ctx, need_race=False, lean=True):
     res.checker_cmd = "cd /verif/lean && lake build %s driver && lake env lean <#print axioms of each theorem>" % mod
     if ctx.tier == "thorough":
         res.checker_cmd += " && lake env leanchecker " + mod
+    ok, out, dt = core.lake_build(([mod] if thms else []) + ["driver"])
+    ctx.model_ok = os.path.exists(core.DRIVER) and ok
     if not thms:
         res.notes.append("no Lean theorems for this property yet")
         return True
-    ok, out, dt = core.lake_build([mod, "driver"])
     res.extra["lean_build_s"] = round(dt, 1)
     if not ok:
         # which obligation failed: report the first error lines
@@ -92,7 +93,7 @@ def diff_model(res, ctx, ops, outs, label, skip=lambda op: False):
     """compare real outputs with the model's; returns index of first disagreement or None."""
     if not ctx.model_ok:
         return None
-    mouts = run_model(ops)
+    mouts = run_model(core.model_ops(ops))
     for i, (op, a, b) in enumerate(zip(ops, outs, mouts)):
         if b == "?" or skip(op):
             continue
